@@ -11,6 +11,8 @@ for d in sorted(glob.glob(f'{V}/seeded/C*-*')):
     if only and name not in only: continue
     meta=json.load(open(f'{d}/meta.json'))
     pid=meta['property']
+    if meta.get('obsolete'):
+        res.append({'seed':name,'property':pid,'summary':meta.get('summary',''),'initially': initial.get(name,'?'),'status':'obsolete: '+meta['obsolete']}); continue
     assert subprocess.run(['git','-C','/repo','status','--porcelain'],capture_output=True,text=True).stdout=='' , '/repo not clean'
     a=subprocess.run(['git','-C','/repo','apply',f'{d}/patch.diff'],capture_output=True,text=True)
     if a.returncode!=0:
